@@ -350,7 +350,11 @@ class Program:
                 raws[b["path"]] = b
         # functions absent from the reference tree are inlined into their callers (engine/inline.py)
         from . import inline as _inline
-        self.inline_report = _inline.inline_new(raws, _inline.reference_paths())
+        ref = _inline.reference_paths()
+        # a function that was only renamed or moved keeps its reference path (engine/inline.alias_renamed)
+        self.renamed = _inline.alias_renamed(raws, ref, _inline.reference_meta())
+        self.info["renamed_functions"] = self.renamed
+        self.inline_report = _inline.inline_new(raws, ref)
         self.info["inlined_new_functions"] = self.inline_report
         for p, b in raws.items():
             self.bodies[p] = Body(b, b["_crate"])
